@@ -14,12 +14,15 @@ import (
 
 	"verifharness/core"
 
+	"github.com/Nextdoor/pg-bifrost.git/app/config"
 	"github.com/Nextdoor/pg-bifrost.git/marshaller"
+	"github.com/Nextdoor/pg-bifrost.git/partitioner"
 	"github.com/Nextdoor/pg-bifrost.git/shutdown"
 	"github.com/Nextdoor/pg-bifrost.git/stats"
 	"github.com/Nextdoor/pg-bifrost.git/transport"
 	rbatcher "github.com/Nextdoor/pg-bifrost.git/transport/batcher"
 	"github.com/Nextdoor/pg-bifrost.git/transport/progress"
+	"github.com/Nextdoor/pg-bifrost.git/transport/transporters/kinesis"
 	"github.com/cevaris/ordered_map"
 )
 
@@ -76,7 +79,14 @@ func runBatcherImpl(c BatcherCase) (evs []Ev, big, invalid int, terminated bool)
 	seenCh := make(chan []*progress.Seen)
 	writtenCh := make(chan *ordered_map.OrderedMap)
 	statsCh := make(chan stats.Stat, 4096)
-	fac := &tapFactory{inner: c.Kind.factory(), keyOf: map[*ordered_map.OrderedMap]string{}}
+	// Kinesis batches come from the REAL factory (kinesis.NewBatchFactory decides from the partition
+	// method whether records are keyed by their own LSN or by the batch key); the model is told the
+	// documented rule (own LSN iff method = none) through c.Kind
+	inner := c.Kind.factory()
+	if c.Kind.Kinesis != "" {
+		inner = kinesis.NewBatchFactory(map[string]interface{}{config.VAR_NAME_PARTITION_METHOD: partitioner.GetPartitionMethod(c.Method)})
+	}
+	fac := &tapFactory{inner: inner, keyOf: map[*ordered_map.OrderedMap]string{}}
 	routing := rbatcher.BATCH_ROUTING_ROUND_ROBIN
 	if c.Routing == "partition" {
 		routing = rbatcher.BATCH_ROUTING_PARTITION
@@ -443,7 +453,7 @@ func genBatcherCase(rng *rand.Rand) BatcherCase {
 	if c.Kind.Kinesis == "walstart" {
 		c.Method = "none"
 	} else if c.Kind.Kinesis == "batch" && c.Method == "none" {
-		c.Method = "tablename"
+		c.Method = []string{"tablename", "transaction", "transaction-bucket"}[rng.Intn(3)]
 	}
 	c.Buckets = 1 + rng.Intn(5)
 	tables := []string{"public.a", "public.b", "\"S\".\"t x\"", "public.c"}
